@@ -38,12 +38,24 @@ CHECKS = {
  "C10": (EX, "lattice", "exhaustive enumeration of limb forms of window values, corner lattices and byte-string balls against big.Int residues",
   "Bytes/IsNegative/Equal on every limb form of every integer in the fold windows around p and 2^255, on the corner lattice and on all alphabet forms; Select/Swap limb-exact for both cond values and all aliasing; SetBytes/SetWideBytes on byte balls, limb-straddling byte pairs and all lengths.",
   "math/big; limb vectors outside the closed box are not injected", "3 C10"),
+ "C11": (MC, "lattice",
+  "complete enumeration of the finite program space: every exported method x every set partition of its pointer operand positions into aliased groups x value tuples, each executed on the real code with shared and with distinct storage and compared",
+  "The programs quantifier is finite (about 280 method/partition programs) and is covered completely, each for every tuple of a small value alphabet; operands that are not the receiver, byte slices up to cap, and the scalar/point slices (headers, elements, spare capacity, pointees) are compared bit for bit with snapshots.",
+  "value alphabets are small (4-6 values per type); the distinct-storage run is the oracle (differential)", "3 C11"),
  "C12": (MC, "opseq", "explicit-state breadth-first search over a register machine whose transitions are the real exported operations; exact-state de-duplication; invariant evaluated with math/big in every reachable state",
   "Every exported Point-writing operation with every receiver/argument register choice, from 10-125 initial register assignments (uninitialised, identity, generator, order-8 point, mixed point in a scaled representation), to depth 2 on the full machine and depth 3 on a reduced one; in every state Z!=0, both curve identities, agreement with a shadow model, and Equal against identity/generator are checked.",
   "math/big; histories longer than the completed depth and values outside the alphabets are not decided", "3 C12"),
  "C13": (EX, "lattice", "exhaustive enumeration of coordinate quadruples (9^4 alphabet product, all limb forms of 0 and 1, all single-coordinate deviations of valid quadruples) against the three conditions evaluated in math/big",
   "Accept iff Z != 0 and both identities hold; accepted point equals (X/Z, Y/Z); export/re-import of every operation-produced representation.",
   "math/big", "3 C13"),
+ "C14": (MC, "lattice",
+  "complete enumeration of (setter, input class, prior receiver state) cells over the invalid-input alphabets, executing the real setters and comparing receiver memory before/after",
+  "All seven fallible setters, every wrong length 0..130, boundary balls, off-curve encodings and invalid coordinate quadruples (every limb form of Z=0), each with the receiver previously zero-valued, canonical, or in a non-trivial representation; nil+error, receiver untouched (raw and observable), input untouched to cap; success returns the receiver.",
+  "math/big decides validity", "3 C14"),
+ "C15": (MC, "lattice",
+  "complete enumeration of the finite misuse matrix: every exported Point operation x every Point-typed input position x ways of producing a zero value x other-argument values; recover() as oracle",
+  "Every input position of every operation (incl. each index of the points slice for n=1..3) is made zero-valued in five different ways with all other inputs valid -> must panic; receiver-only zero values must not panic; all (len scalars, len points) in {0..3}^2 panic iff different. The operation table is cross-checked against reflection.",
+  "recover() observes panics; the operation table lists today's exported methods (new ones are reported as uncovered)", "3 C15"),
  "C16": (EX, "lattice", "exhaustive enumeration of (u,v) grids and of all pairs of field-alphabet forms against an Euler-criterion/ModSqrt oracle",
   "All (u,v) in [0,256)^2, all ordered pairs of forms of alphabet F, lattice corners, with the receiver aliased to u, to v, to neither, and u,v the same pointer; all four contract classes counted.",
   "math/big", "3 C16"),
@@ -54,9 +66,6 @@ CHECKS = {
 
 NOT_YET = {
  "C03": "check under construction (leakage-trace self-composition); not claimed yet",
- "C11": "check under construction; not claimed yet",
- "C14": "check under construction; not claimed yet",
- "C15": "check under construction; not claimed yet",
  "C18": "check under construction (controlled scheduler); not claimed yet",
  "C19": "check under construction; not claimed yet",
  "C20": "check under construction; not claimed yet",
